@@ -100,6 +100,7 @@ type S struct {
 	checkMs    int
 	finished   bool
 	hashMode   bool
+	keepAlive  int
 	regChanges bool
 	mgrMode    bool // C13 at manager level: the registry's list changes while calls select endpoints
 	regLog     []regEvent
@@ -184,7 +185,13 @@ func (s *S) Run(c *scen.Ctx) {
 		s.refreshMs = []int{1000, 2000}[simrt.Draw(2, "c15.refreshms")]
 		c.Describe("registry_refresh_ms", s.refreshMs)
 	}
-	comm := world.NewClient(world.ClientOpts{InvokeTimeoutMs: s.timeout, CheckStatusMs: s.checkMs, RefreshMs: s.refreshMs, DialTimeout: 200 * time.Millisecond}, tars.Registrar(s.reg))
+	keepAlive := 0
+	if !s.hashMode && !s.mgrMode && simrt.Draw(4, "c15.keepalive") == 3 {
+		keepAlive = []int{1000, 2000, 4000}[simrt.Draw(3, "c15.keepalivems")]
+	}
+	c.Describe("keep_alive_ms", keepAlive)
+	s.keepAlive = keepAlive
+	comm := world.NewClient(world.ClientOpts{InvokeTimeoutMs: s.timeout, CheckStatusMs: s.checkMs, RefreshMs: s.refreshMs, DialTimeout: 200 * time.Millisecond, KeepAliveMs: keepAlive}, tars.Registrar(s.reg))
 	for _, n := range s.nodes {
 		n := n
 		n.mode = "healthy"
@@ -524,7 +531,8 @@ func (s *S) Check(c *scen.Ctx, res *simrt.Result) {
 				if wasIn && !now {
 					outSince = ob[oi].t
 					c.Count("probe.endpoint_left_rotation", 1)
-					if failsSince < 2 {
+					// (with keep-alive on, pings that cannot be sent are failed calls too; the harness does not see them)
+					if failsSince < 2 && s.keepAlive == 0 {
 						c.Fail(s.propID(), "removed-without-failures", "checkActive", "endpoint %s left the rotation at %v after only %d failed call(s) since it was (re)instated", n.host, ob[oi].t, failsSince)
 					}
 					lastProbe = -1
